@@ -22,7 +22,7 @@ RULE = ("programs of 1-6 Echo commands (string, number, boolean, path, data type
         "non-ASCII, leading/trailing blanks, empty, control characters) and numbers (huge ints, exponent-form floats, -0.0), built from "
         "source and through add_command (names and Command objects as references); plus random EEMS models from source and API; "
         "distinct by (builder, parameter kinds used, string/number feature classes)")
-REQUIRED_COUNTERS = ["round_trips", "values_compared", "result_pairs_compared", "fixpoints_checked", "to_file_checks", "eems2_histories"]
+REQUIRED_COUNTERS = ["round_trips", "values_compared", "result_pairs_compared", "fixpoints_checked", "to_file_checks", "eems2_histories", "cli_runs_of_saved_files"]
 ASSUMPTIONS = ["layout of the text and key order of metadata are not judged", "NaN/inf and type objects as argument values are never generated",
                "result names are identifiers"]
 
@@ -339,6 +339,27 @@ def run_case(ctx, case):
         bad = [n for n in rp if rp[n] != rq.get(n)]
         ctx.fail("%s:results-differ" % builder, {"commands": bad[:4], "text": text[:800]})
         return
+    # the saved file run by the command-line tool: a program that ran through the API runs through the tool as well
+    if case["kind"] == "eems" and case["rseed"] % 3 == 0:
+        from click.testing import CliRunner
+        from mpilot.cli.mpilot import main
+        fp = os.path.join(d, "saved_for_cli.mpt")
+        try:
+            P.to_file(fp)
+            try:
+                res = CliRunner(mix_stderr=False).invoke(main, ["eems-csv", fp])
+            except TypeError:
+                res = CliRunner().invoke(main, ["eems-csv", fp])
+            ctx.count("cli_runs_of_saved_files")
+            if res.exit_code != 0 or (res.exception is not None and not isinstance(res.exception, SystemExit)):
+                try:
+                    err_text = res.stderr
+                except Exception:
+                    err_text = res.output
+                ctx.fail("%s:saved-file-fails-in-command-line-tool" % builder, {"exit": res.exit_code, "exception": repr(res.exception)[:200], "stderr": err_text[-400:], "text": text[:600]})
+                return
+        except UnicodeError:
+            ctx.dontcare("non-UTF-8 locale")
     if len(ctx.samples) < 4:
         ctx.sample({"builder": builder, "kind": case["kind"], "serialised": text[:700]})
 
